@@ -40,9 +40,7 @@ Proof. exact uses_subset_needs_proof. Qed.
 Print Assumptions uses_subset_needs.
 
 Example uses_subset_needs_nonvacuous : exists m, In m (u_methods uses_gen) /\ uses chain_gen uses_gen m <> [].
-Proof.
-  eexists. split; [left; reflexivity|]. vm_compute. discriminate.
-Qed.
+Proof. exact witness_uses. Qed.
 
 (* 3. SUFFICIENCY.  Supplying (at least) the declared callbacks, in any order, through either entry point
       -- or using the matrix form -- makes the method run without touching a dummy callback. *)
@@ -53,14 +51,8 @@ Proof. exact declared_sufficient_proof. Qed.
 Print Assumptions declared_sufficient.
 
 Example declared_sufficient_nonvacuous : exists m order,
-  In m (u_methods uses_gen) /\ valid_chain order ByRange /\ order <> [Kern; Dist; Feat] /\
-  (forall k, In k (declared uses_gen m) -> In k order).
-Proof.
-  eexists. exists [Kern]. split; [left; reflexivity|]. split; [|split].
-  - split; [repeat constructor; simpl; tauto | split; discriminate].
-  - discriminate.
-  - vm_compute. tauto.
-Qed.
+  In m (u_methods uses_gen) /\ valid_chain order ByRange /\ (forall k, In k (declared uses_gen m) -> In k order).
+Proof. exact witness_sufficient. Qed.
 
 (* 4. ... and a chain that lacks a declared callback is refused by the documented guard. *)
 Theorem missing_declared_refused : forall m order en, In m (u_methods uses_gen) -> valid_chain order en ->
@@ -72,12 +64,7 @@ Print Assumptions missing_declared_refused.
 Example missing_declared_refused_nonvacuous : exists m order,
   In m (u_methods uses_gen) /\ valid_chain order ByRange /\ ByRange <> ByMatrix /\
   (exists k, In k (declared uses_gen m) /\ ~ In k order).
-Proof.
-  eexists. exists [Dist]. split; [left; reflexivity|]. split; [|split].
-  - split; [repeat constructor; simpl; tauto | split; discriminate].
-  - discriminate.
-  - exists Kern. vm_compute. split; [tauto | intros [H|[]]; discriminate].
-Qed.
+Proof. exact witness_missing. Qed.
 
 (* 5. Meaning of the model's verdict Ok, for EVERY table (not only the generated one). *)
 Theorem ok_touches_no_dummy : forall u m slots, run_method_on u m slots = Ok ->
@@ -92,11 +79,7 @@ Print Assumptions ok_touches_no_dummy.
 
 Example ok_touches_no_dummy_nonvacuous : exists m slots,
   In m (u_methods uses_gen) /\ run_method_on uses_gen m slots = Ok.
-Proof.
-  destruct (reach chain_gen [Kern] ByRange) as [cls slots| | |] eqn:E; try (vm_compute in E; discriminate).
-  eexists. exists slots. split; [left; reflexivity|].
-  vm_compute in E. inversion E; subst. vm_compute. reflexivity.
-Qed.
+Proof. exact witness_ok. Qed.
 
 (* 6. Who may be called.  In every valid chain, an object can receive a call only if the caller supplied it,
       only if its kind is declared by the method (exception: the base constructor asks a supplied features
@@ -109,14 +92,9 @@ Theorem only_declared_called : forall m order en k f, In m (u_methods uses_gen) 
 Proof. exact only_declared_called_proof. Qed.
 Print Assumptions only_declared_called.
 
-Example only_declared_called_nonvacuous : exists m order,
-  In m (u_methods uses_gen) /\ valid_chain order ByRange /\
-  In (Kern, "kernel") (may_call chain_gen uses_gen m order ByRange).
-Proof.
-  eexists. exists [Feat; Kern]. split; [left; reflexivity|]. split.
-  - split; [repeat constructor; simpl; intuition discriminate | split; discriminate].
-  - vm_compute. tauto.
-Qed.
+Example only_declared_called_nonvacuous : exists m c,
+  In m (u_methods uses_gen) /\ In c (may_call chain_gen uses_gen m [Kern; Dist; Feat] ByRange).
+Proof. exact witness_called. Qed.
 
 (* 7. The dispatch list of DynamicImplementation::embedUsing and the method table name the same methods. *)
 Theorem dispatch_complete :
@@ -144,29 +122,24 @@ Theorem deref_only_into_callbacks : forall file snippet into_callback,
 Proof. exact deref_only_into_callbacks_proof. Qed.
 Print Assumptions deref_only_into_callbacks.
 
-Example deref_only_into_callbacks_nonvacuous : 40 <= List.length (u_derefs uses_gen) /\
-  In "routines/spe.hpp" (u_deref_files uses_gen) /\ In "neighbors/vptree.hpp" (u_deref_files uses_gen).
-Proof.
-  split; [vm_compute; repeat constructor|]. split; [vm_compute; auto 60 | vm_compute; auto 60].
-Qed.
+Example deref_only_into_callbacks_nonvacuous : u_derefs uses_gen <> [] /\ u_deref_files uses_gen <> [].
+Proof. exact witness_derefs. Qed.
 
-(* 9b. The wrapper objects built by the ImplementationBase constructor (plain_distance := PlainDistance(distance),
-       kernel_distance := KernelDistance(kernel)) wrap the callback slot of their own role, and every member function
-       of the wrapper calls only the member function of that role on the wrapped callback. *)
+(* 9b. The wrapper objects built by the ImplementationBase constructor (slots plain_distance, kernel_distance): every
+       member function of the wrapper calls, on the wrapped callback, only the member function of the role of the slot
+       (.distance for plain_distance, .kernel for kernel_distance).  That the wrapped callback IS the one of that role
+       is part of chain_routes (expected_slots). *)
 Theorem wrappers_forward_to_own_role : forall c slot w e,
   find_class (t_classes chain_gen) (t_impl_class chain_gen) = Some c ->
   In (slot, EWrap w e) (c_inits c) ->
-  exists s tb r, e = EId s /\ In (w, tb) (u_wrappers uses_gen) /\ slot_role s = Some r /\ slot_role slot = Some r /\
-    tb <> [] /\
+  exists tb r, In (w, tb) (u_wrappers uses_gen) /\ slot_role slot = Some r /\ tb <> [] /\
     forall member calls, In (member, calls) tb -> calls <> [] /\ forall f, In f calls -> f = role_function r.
 Proof. exact wrappers_forward_to_own_role_proof. Qed.
 Print Assumptions wrappers_forward_to_own_role.
 
-Example wrappers_forward_nonvacuous : exists c,
-  find_class (t_classes chain_gen) (t_impl_class chain_gen) = Some c /\
-  In ("plain_distance", EWrap "PlainDistance" (EId "distance")) (c_inits c) /\
-  In ("kernel_distance", EWrap "KernelDistance" (EId "kernel")) (c_inits c).
-Proof. eexists. split; [vm_compute; reflexivity|]. split; vm_compute; auto 20. Qed.
+Example wrappers_forward_nonvacuous : exists c slot w e,
+  find_class (t_classes chain_gen) (t_impl_class chain_gen) = Some c /\ In (slot, EWrap w e) (c_inits c).
+Proof. exact witness_wrappers. Qed.
 
 (* 10. The deciders the check evaluates (extracted) on the regenerated tables are sound for EVERY table: whenever
        they answer true, the Prop-level statements 1, 3 and 4 hold of that table (no finiteness of the table is used). *)
@@ -197,6 +170,6 @@ Theorem uses_refuted_before_F13 :
     md_name m = "ManifoldSculpting" /\
     declared (uses_before_F13 uses_gen) m = [Feat] /\
     ~ incl (uses chain_gen (uses_before_F13 uses_gen) m) (declared (uses_before_F13 uses_gen) m) /\
-    run_method chain_gen (uses_before_F13 uses_gen) m [Feat] ByRange = TouchesDummy "plain_distance" Dist.
+    exists slot, run_method chain_gen (uses_before_F13 uses_gen) m [Feat] ByRange = TouchesDummy slot Dist.
 Proof. exact uses_refuted_before_F13_proof. Qed.
 Print Assumptions uses_refuted_before_F13.
